@@ -130,6 +130,9 @@ func showTarget(d *bridgedesc.Target) string {
 
 // Exec runs the real resolver against the scripted target of the case line.
 func (Area) Exec(input string) string {
+	if strings.HasPrefix(input, "pipe ") {
+		return pipeExec(input)
+	}
 	c := decCase(input)
 	installHook()
 	t := newTarget(c)
